@@ -1097,7 +1097,9 @@ class Engine:
                 out = concat_lists(c, out, v)
         if out is None:
             junk = self.ctx.fresh("junk", "str")
-            return VList(Int(0), lambda i: junk, "str")
+            lst = VList(Int(0), lambda i: junk, "str")
+            lst.empty = True
+            return lst
         return out
 
     def ev_Dict(self, node, env, st):
@@ -1234,7 +1236,11 @@ class Engine:
                 for _ in vs:
                     c.bound.pop()
             if kind == "all":
-                return ForAll(vs, Implies(And(guard, *conds), inner))
+                g_ = And(guard, *conds)
+                if isinstance(inner.conj, list) and len(inner.conj) > 1:
+                    # forall x. (A and B)  ==  (forall x. A) and (forall x. B): smaller goals and hypotheses
+                    return And(*[ForAll(vs, Implies(g_, cj)) for cj in inner.conj])
+                return ForAll(vs, Implies(g_, inner))
             return Exists(vs, And(guard, *conds, inner))
 
         def rec(k, env_):
@@ -1561,7 +1567,10 @@ class Engine:
                             parts = recv.parts + o.parts
                         elif isinstance(o, VList):
                             parts = recv.parts + [("many", o)]
-                    return VSet(lambda x, o=o: f(recv.has(x), self.contains(o, x, st)), recv.ety, parts=parts)
+                    out_set = VSet(lambda x, o=o: f(recv.has(x), self.contains(o, x, st)), recv.ety, parts=parts)
+                    # a description of a SUPERSET survives intersection / difference: used to index the elements
+                    out_set.super_parts = parts if parts is not None else (recv.parts if recv.parts is not None else getattr(recv, "super_parts", None))
+                    return out_set
                 if m == "issubset" and len(args) == 1 and recv.parts is not None and isinstance(args[0], VSet):
                     return VBool(subset_by_parts(c, recv, args[0]))
                 if m == "issubset" and len(args) == 1:
